@@ -188,6 +188,21 @@ def run(ctx):
                         others = [x for x in b.calls() if writes_def(x, ("push_raw_str",))]
                         if not defw and others:
                             nm_ok = True
+        # the same test written as a comparison with a constant: `mode == Some(NoMetric)` / `mode != NoMetric`
+        def _is_nm(k):
+            return isinstance(k, tuple) and k and k[0] == "variant" and ((str(k[1]).endswith("StorageMode") and k[2] == "NoMetric") or
+                                                                       any(_is_nm(k2) for k2 in (k[3] if len(k) > 3 else ())))
+        for c in b.calls():
+            if c.name not in ("eq", "ne") or not any(y[0] == "const" and _is_nm(y[1]) for a in c.args for y in pr.operand(a)):
+                continue
+            for sw, tg, oth in switch_on_call_result(b, c):
+                t_true, t_false = tg.get(1, oth if 0 in tg else None), tg.get(0, oth if 1 in tg else None)
+                nt = t_true if c.name == "eq" else t_false
+                if nt is not None:
+                    defw = [x for x in b.calls() if x.bb in b.reachable(nt) and writes_def(x, ("push", "push_raw_str", "json_string"))]
+                    others = [x for x in b.calls() if writes_def(x, ("push_raw_str",))]
+                    if not defw and others:
+                        nm_ok = True
         ctx.check(nm_ok, "R03.3", fnkey(b) + "#no-metric-flag-suppresses-definition", loc(b), "the NoMetric flag no longer suppresses the metric definition (or is not branched on)")
     # ------------------------------------------------------------------ R03.4 namespace replication siblings
     fin = [b for b in F.all_bodies(CR) if c02.in_scope(b) and b.def_ not in c02.send_bodies(F) and [c for c in b.calls() if c02.is_send(F, c)]]
@@ -196,18 +211,30 @@ def run(ctx):
         dom = b.dominators()
         writes = [c for c in b.calls() if c02.is_send(F, c)]
         sim = c02.BufSim(F, b, CR)
-        repl = [c for c in b.calls() if c.name == "push_raw_str" and len(c.args) > 1 and (sim._const_str(c.args[1]) or "").endswith('"Namespace":') and c.bb in b.reachable_after(c.bb)]
+        # replication units: a loop of this body, or a closure run through `for_each`, that appends `,{"Namespace":` + the encoded
+        # namespace + a copy of the first directive; each is placed at the block of this body where it runs
+        from mq.bufsim import loop_closure_call
+        def _is_ns_open(bd, sm, c):
+            return c.name == "push_raw_str" and len(c.args) > 1 and (sm._const_str(c.args[1]) or "").endswith('"Namespace":')
+        repl = []       # (block in b, has_ns, has_copy)
+        for c in b.calls():
+            if _is_ns_open(b, sim, c) and c.bb in b.reachable_after(c.bb):
+                loop = b.reachable_after(c.bb)
+                repl.append((c.bb,
+                             any(x.name == "push_json_safe_string" and x.bb in loop and c.bb in b.reachable_after(x.bb) for x in b.calls()),
+                             any(x.name == "extend_from_within_range" and x.bb in loop and c.bb in b.reachable_after(x.bb) for x in b.calls())))
+        for i in b.live_blocks():
+            t = b.term(i)
+            lc = loop_closure_call(F, b, t, CR) if t["k"] == "call" else None
+            if lc is not None:
+                cl = lc[0]
+                sm2 = c02.BufSim(F, cl, CR)
+                if any(_is_ns_open(cl, sm2, c) for c in cl.calls()):
+                    repl.append((i, any(x.name == "push_json_safe_string" for x in cl.calls()), any(x.name == "extend_from_within_range" for x in cl.calls())))
         for w in writes:
-            mine = [r for r in repl if w.bb in b.reachable(r.bb) and not any(o.bb in b.reachable(r.bb) and w.bb in b.reachable(o.bb) and o is not w for o in writes if dominates(b, o.bb, w.bb, dom))]
-            near = [r for r in repl if w.bb in b.reachable_after(r.bb)]
+            near = [r for r in repl if w.bb in b.reachable_after(r[0])]
             # the replication loop belonging to this write: the last one before it
-            okr = False
-            for r in near:
-                loop = b.reachable_after(r.bb)
-                has_ns = any(x.name == "push_json_safe_string" and x.bb in loop and r.bb in b.reachable_after(x.bb) for x in b.calls())
-                has_copy = any(x.name == "extend_from_within_range" and x.bb in loop and r.bb in b.reachable_after(x.bb) for x in b.calls())
-                # iterates namespaces[1..]
-                okr = okr or (has_ns and has_copy)
+            okr = any(has_ns and has_copy for _, has_ns, has_copy in near)
             # each write needs its own loop: loops are distinct per write
             ctx.check(okr and len(repl) >= len(writes), "R03.4", fnkey(b) + "#namespace-replication@write%d" % writes.index(w), loc(b, w.bb),
                       "an emission branch does not replicate the metric directive for the additional namespaces (loop with `,{\"Namespace\":` + "
